@@ -88,7 +88,7 @@ send_bdat(unsigned int recodeflag)
 				 * stream we will insert one. Garbage in, Garbage out.
 				 * This is 8BITMIME and not BINARYMIME. */
 				chunkbuf[len++] = '\n';
-				if ((off < msgsize - 1) && (msgdata[off] == '\n')) {
+				if ((off < msgsize) && (msgdata[off] == '\n')) {
 					off++;
 				} else if (bare_cr_warning == 0) {
 					log_write(LOG_WARNING, "found bare CR in message\n");
